@@ -7,9 +7,10 @@ CONSTANTS
  TxSize <- U_TxSize
  TxRbf <- U_TxRbf
  TxCls <- U_TxCls
+ TxLock <- U_TxLock
  TxWit <- U_TxWit
  SlotParent <- U_SlotParent
- NFund = 3
+ NFund = 4
  Maturity = 1
  RejectRepl = FALSE
  MaxOrphans = 0
@@ -21,12 +22,15 @@ CONSTANTS
  MaxReorgTxs = 0
  Standalone = FALSE
  DisconnectEvicts = TRUE
+ Standard = FALSE
  Script <- U_Script
  TxWeight <- U_TxWeight
  TxSigCost <- U_TxSigCost
  Policies <- U_Policies
+ Variants <- U_Variants
+ CbWeight <- U_CbWeight
  H0 = 2
- CbWeight = 300
+ HardDiff = FALSE
  CommitWeight = 224
 INIT Init
 NEXT Next
